@@ -64,7 +64,8 @@ pub fn gen_pose(rng: &mut Rng, rp: &RParams, class: usize) -> GenPose {
     match class {
         // reachable by construction
         0 => {
-            let q = joints_uniform(rng, PI);
+            // (a fifth of the generating vectors has joints resting at zero or at a micro- / nanoradian value)
+            let q = if rng.bool(0.2) { joints_resting(rng, PI) } else { joints_uniform(rng, PI) };
             GenPose { iso: fr_to_iso(&fk(rp, &q)), class: "reachable", q: Some(q), proper: true }
         }
         // random SE(3) in a ball of 1.5 x reach
